@@ -213,7 +213,7 @@ def walker_rule(cx, fn, rule, base_addr, base_count, kind):
                              fmt(ln), fmt(base_addr), fmt(base_count),
                              {fmt(k): fmt(pre) for k, (h, pre) in lmap.items() if pre is not None}))
             continue
-        facts = eng.path_facts(p) + inv
+        facts = eng.strict_facts(p) + inv
         tail = eng.entails(facts, L(base_count) - P - L(ln))        # chunk == everything that is left
         key = '%s:%s:%s:%s' % (fn, 'aux' if mem == BUF_DATA else 'octet', 'tail' if tail else 'full', p.end)
         if key in cx.__dict__.setdefault('_seen', set()):
@@ -263,7 +263,7 @@ def walker_rule(cx, fn, rule, base_addr, base_count, kind):
         P, inv = progress(p)
         if P is None:
             continue
-        facts = eng.path_facts(p) + inv
+        facts = eng.strict_facts(p) + inv
         z = L(base_count) - P
         okz = eng.entails(facts, z) and eng.entails(facts, -z)
         if not okz:
